@@ -54,12 +54,34 @@ fn r<S: Sc>(pq: (i64, i64)) -> S {
 fn rk<S: Sc>(kind: Kind, items: usize, ratio: f64, dim: usize) {
     let tb = if kind == Kind::RK45 { fehlberg45() } else { bogacki_shampine23() };
     let o = tb.c.len();
-    let c = conf_inputs::<S>(dim, YB);
-    assume_valid(&c);
-    S::assume(S::b_le(c.dt_max, c.dt_min * S::lit(ratio)));
+    let c = if ratio <= 1.0 {
+        // concrete step and start (dimension-2 variant: keeps the Euclidean-norm queries small): the
+        // stage derivatives and the tolerance stay symbolic
+        // (dt_min well below dt_max: an accepted step whose estimate is close to the tolerance shrinks the next step and must still be yielded)
+        Conf { t0: S::lit(0.25), t1: S::lit(8.0), dt_min: S::lit(0.0703125), dt_max: S::lit(0.125), tol: S::input("tol", 1e-8, 1.0), y0: (0..dim).map(|i| S::lit(0.5 - i as f64)).collect() }
+    } else {
+        let c = conf_inputs::<S>(dim, YB);
+        assume_valid(&c);
+        S::assume(S::b_le(c.dt_max, c.dt_min * S::lit(ratio)));
+        c
+    };
     let log = new_log::<S>();
     let run = if dim == 1 {
         run_d1(kind, &c, tape_rhs(log.clone(), VB, None), items, &log, 0)
+    } else if ratio <= 1.0 {
+        // two symbolic amplitudes times seeded concrete stage values: the Euclidean norm of the estimate is
+        // sqrt((alpha*A)^2 + (beta*B)^2) with concrete A, B (3 symbolic quantities with the tolerance)
+        let alpha = S::input("alpha", -4.0, 4.0);
+        let beta = S::input("beta", -4.0, 4.0);
+        let l2 = log.clone();
+        let f: Rhs<S, nalgebra::Const<2>> = Box::new(move |t: S, y: &[S], _d: &mut ()| {
+            let k = l2.borrow().len() as i64;
+            let mut g = super::util::Lcg::new(977 * k + 31);
+            let v = vec![alpha * S::lit(g.range_r(-1.0, 1.0, 2)), beta * S::lit(g.range_r(-1.0, 1.0, 2))];
+            l2.borrow_mut().push(Call { t, y: y.to_vec(), v: v.clone() });
+            Ok(vec_d::<S, nalgebra::Const<2>>(&v))
+        });
+        run_d2(kind, &c, f, items, &log, 0)
     } else {
         run_d2(kind, &c, tape_rhs(log.clone(), VB, None), items, &log, 0)
     };
@@ -339,18 +361,22 @@ pub fn run(pr: &mut PropRun, t: &Tier) {
         cfg.max_decisions = 24 * items;
         run_h!(pr, cfg, rk, kind, items, ratio, 1);
     }
-    if t.thorough {
-        for kind in [Kind::RK45, Kind::RK23] {
-            let mut cfg = t.cfg(&format!("C03:rk({},items=1,D=2)", kind.name()));
-            cfg.max_decisions = 24;
-            run_h!(pr, cfg, rk, kind, 1, 1.3, 2);
-        }
+    // dimension 2: the embedded estimate is a Euclidean norm (a max-norm or 1-norm estimate differs only here)
+    for kind in [Kind::RK45, Kind::RK23] {
+        let mut cfg = t.cfg(&format!("C03:rk({},items=1,D=2)", kind.name()));
+        cfg.max_decisions = 24;
+        cfg.query_timeout_s = 30.0;
+        run_h!(pr, cfg, rk, kind, 1, 1.0, 2);
     }
+    // Adams: dt_max/dt_min >= 2 so that a start-up rejected by its first predictor-corrector step can be
+    // retried with a smaller step (the roll-back of time and state is then on the explored paths)
     for kind in [Kind::Adams3, Kind::Adams5] {
         let n = kind.startup() + 2;
         let mut cfg = t.cfg(&format!("C03:adams({},items={})", kind.name(), n));
-        cfg.max_decisions = 60;
-        run_h!(pr, cfg, adams, kind, n, ratio);
+        cfg.max_decisions = 90;
+        cfg.query_timeout_s = 30.0;
+        // (Adams5 at ratio 2: measured 200 s with undecided obligations; the roll-back path is covered by Adams3)
+        run_h!(pr, cfg, adams, kind, n, if kind == Kind::Adams3 || t.thorough { ratio.max(2.0) } else { ratio });
     }
     let members = if t.thorough { 6 } else { 2 };
     for kind in [Kind::BDF2, Kind::BDF6] {
